@@ -70,15 +70,18 @@ def probe_local_ips():
 # ------------------------------------------------------------------ configuration generator
 
 RH_POOL = [b"a.test", b".a.test", b"b.test", b".b.test", b".sub.b.test", b"me.test", b"OTHER.net", b"lip.test",
-           b"[10.9.8.7]", b"Mixed.Case.Test"]
+           b"[10.9.8.7]", b"Mixed.Case.Test", b"abcdefghijklm.nopqrstuvwxyz.test", b".Zulu-Yankee.Quiz.test"]
 RH_NOISE = [b"# a comment", b"#a.test", b"", b"   "]
-MRH_POOL = [b"more.test", b".more.test", b"MORE2.test", b".b.test", b"lip.test", b"me.test"]
+MRH_POOL = [b"more.test", b".more.test", b"MORE2.test", b".b.test", b"lip.test", b"me.test", b"JAZZ.BUZZ.test", b".fizz.test"]
 BMF_POOL = [b"bad@a.test", b"@other.net", b"bad@B.Test", b"user@a.test", b"@LIP.test", b"spam", b"@[10.9.8.7]",
-            b"quo ted@a.test", b"@deep.more.test"]
+            b"quo ted@a.test", b"@deep.more.test", b"quiz@jazz.buzz.test", b"@Fizz.Test", b"LIZ@a.test"]
 DOMAINS = [b"a.test", b"sub.a.test", b"A.Test", b"xa.test", b"b.test", b"x.sub.b.test", b"X.B.TEST", b"other.net",
            b"OTHER.NET", b"more.test", b"deep.more.test", b"More2.Test", b"me.test", b"lip.test", b"LIP.Test",
-           b"nowhere.example", b"test", b"mixed.case.test", b"a.test.example", b"[10.9.8.7]"]
-LOCALS_PLAIN = [b"user", b"User.Name", b"bad", b"spam", b"postmaster", b"x", b"a-b_c", b"u+tag", b"j=k", b"o'neil"]
+           b"nowhere.example", b"test", b"mixed.case.test", b"a.test.example", b"[10.9.8.7]",
+           # every letter of the alphabet takes part in a case-insensitive match somewhere
+           b"ABCDEFGHIJKLM.NOPQRSTUVWXYZ.TEST", b"AbCdEfGhIjKlM.nOpQrStUvWxYz.test", b"x.zulu-yankee.quiz.test", b"X.ZULU-YANKEE.QUIZ.TEST",
+           b"jazz.buzz.test", b"Jazz.Buzz.Test", b"FIZZ.test", b"y.fizz.TEST"]
+LOCALS_PLAIN = [b"user", b"User.Name", b"bad", b"spam", b"postmaster", b"x", b"a-b_c", b"u+tag", b"j=k", b"o'neil", b"quiz", b"QUIZ", b"liz", b"Liz"]
 LOCALS_SPECIAL = [b"quo ted", b"a@b", b'a"b', b"back\\slash", b"gt>x", b"co:lon", b"semi;x", b"<lt", b"c,d", b"(paren)",
                   b"@lead", b"trail@", b"two  sp", b".dot", b"dot.", b"a..b", b'"', b"\\"]
 
